@@ -22,7 +22,7 @@ KNOWN = {}
 
 def cases(ctx):
     rng = ctx.rng
-    addrs = [0, 0xFFFFFF, 0xABCDEF, 0x123456, 0xA0B1C2, 0x00000A, 0xF00000] + [rng.getrandbits(24) for _ in range(ctx.n(1200, 100000))]
+    addrs = [0, 0xFFFFFF, 0xABCDEF, 0x123456, 0xA0B1C2, 0x00000A, 0xF00000] + [rng.getrandbits(24) for _ in range(ctx.n(1200, 25000))]
     for a in addrs:
         for df in range(32):
             if df not in AA + AP and a % 7:
